@@ -263,7 +263,7 @@ struct Interp {
 };
 
 // ------------------------------------------------------------------ generators
-const std::string kPlain = "abcXYZ 019_-./:=,";
+const std::string kPlain = std::string("abcXYZ 019_-./:=," "\xe9" "\xff" "\x80");   // three bytes >= 0x80: plain text to every rule
 rc::Gen<std::string> gen_plain(long maxlen) { return text_over(kPlain, maxlen); }
 rc::Gen<std::string> gen_envref() {
     return rc::gen::exec([]() {
